@@ -200,6 +200,7 @@ W_RULES = [
     ('W.enumerate', re.compile(r'\.chars\(\)\s*\.enumerate\(\)'), lambda r, mo: 'vx_enumerate(%s.chars())' % r),
     ('W.char_indices', re.compile(r'\.char_indices\(\)'), lambda r, mo: 'vx_char_indices(%s)' % r),
     ('W.nth', re.compile(r'\.chars\(\)\s*\.nth\(([^()]*(?:\([^()]*\))?[^()]*)\)'), lambda r, mo: 'vx_chars_nth(%s, %s)' % (r, mo.group(1))),
+    ('W.count', re.compile(r'\.chars\(\)\s*\.count\(\)'), lambda r, mo: 'vx_chars_count(&*%s)' % r),
     ('W.ends_with', re.compile(r'\.ends_with\(([^()]*)\)'), lambda r, mo: 'vx_string_ends_with_char(&%s, %s)' % (r, mo.group(1))),
     ('W.as_ref', re.compile(r'\.as_ref\(\)'), lambda r, mo: 'vx_as_ref_str(&%s)' % r),
     ('W.push_lowercase', re.compile(r'\.to_lowercase\(\)\s*\.for_each\(\|(\w+)\|\s*(\w+)\.push\(\1\)\)'), lambda r, mo: 'vx_push_lowercase(&mut %s, %s)' % (mo.group(2), r)),
@@ -231,6 +232,9 @@ W_PREFIX_RULES = [
 ]
 
 DROP_ATTR_RX = re.compile(r'^\s*#\[(inline|allow\(|doc|must_use|cfg_attr)[^\n]*\]\s*$')
+
+
+EXTRA_FNS = {}     # repo-relative source path -> [function names] (filled by the driver on 'cannot find function')
 
 
 class Emitter:
@@ -266,6 +270,14 @@ class Emitter:
         src = Source.get(self.repo, mod.src) if mod.src else None
         for it in mod.items:
             self.emit_item(src, it, mod)
+        # helper functions that the (changed) code calls but no contract names: extracted verbatim, without a
+        # contract, so that a refactoring which introduces a helper still reaches the verifier
+        for name in EXTRA_FNS.get(mod.src, []):
+            try:
+                self.emit_fn(src, Fn(name), mod)
+                self.log.append('%s: helper fn %s extracted without contract (not named by any contract)' % (mod.src, name))
+            except AnchorLost:
+                pass
         self.add('\n} // mod %s\n' % mod.name)
 
     def emit_item(self, src, it, mod):
